@@ -45,7 +45,7 @@ def gen(rng, n):
                 pathv = 'r/' + name
                 full = vol + '/r/' + name
             nodes += scen.entry(td, name, pathv, rng.choice(['2001-01-01T00:00:00', '2024-01-01T00:00:00']), pk,
-                                data=(rng.choice([None, 'no/such', '../gone']) if pk == 'l' else None))
+                                data=(rng.choice([None, 'no/such', '../gone', '/canary/dir', '/canary/rodir']) if pk == 'l' else None))
             ents.append({'td': td, 'name': name, 'full': full, 'payload': pk})
         nodes += scen.canary()
         step = {'cmd': cmd, 'argv': [], 'listdir': 'sorted'}
